@@ -176,6 +176,7 @@ type OpGen struct {
 	Unclean   bool             // unclean spellings
 	Relative  bool             // relative spellings
 	NoSpecial bool             // no set-id / sticky bits, root owner only
+	ReadBack  bool             // some Create composites read the content back through the handle
 	always    bool             // (spellUnclean) every spelling is unclean
 }
 
@@ -239,6 +240,9 @@ func (g *OpGen) Gen(r *RNG, existing []string) Op {
 	p := spell(r, g, target)
 	switch k {
 	case "creat":
+		if g.ReadBack && r.Chance(1, 3) {
+			return Op{"creatread", []string{p, genContent(r)}}
+		}
 		return Op{k, []string{p, genContent(r)}}
 	case "write":
 		data := genContent(r)
